@@ -18,6 +18,7 @@ content   A case is {lines, filters, kind, ...}.  Tagged content is written into
           allow-list, and the filters.apply_filters helper.  Validity predicates (a)-(e) of the design.
 
 Nothing from insights.tests is imported (it monkey-patches filters.add_filter)."""
+import atexit
 import itertools
 import os
 import shutil
@@ -72,6 +73,30 @@ EXCLUDED = [
 
 MAXB = 10000  # filters.MAX_MATCH (checked by selftest)
 _uid = itertools.count()
+
+# Sandboxes live below one directory per runner process tree.  Every case removes its own sandbox in
+# `finally`; the parent directory is removed when the runner exits, so that a worker that is killed
+# in the middle of a case (core terminates the pool at the first failure) leaves nothing behind.
+_OWNER = os.getpid()
+_PARENT_DIR = os.path.join(tempfile.gettempdir(), "c07-run-%d" % _OWNER)
+
+
+def _remove_parent_dir():
+    if os.getpid() == _OWNER:
+        shutil.rmtree(_PARENT_DIR, ignore_errors=True)
+
+
+atexit.register(_remove_parent_dir)
+
+
+def _new_sandbox():
+    if not os.path.isdir(_PARENT_DIR):
+        try:
+            os.makedirs(_PARENT_DIR)
+        except OSError:
+            if not os.path.isdir(_PARENT_DIR):
+                raise
+    return tempfile.mkdtemp(prefix="case-", dir=_PARENT_DIR)
 
 
 # ==================================================================================================
@@ -756,13 +781,15 @@ def check_content(case):
     if kind not in KINDS:
         raise HarnessError("unknown kind %r" % kind)
     text, orig = build_lines(case)
-    if any(ch in text for ch in u"\r\x00\x0b\x0c\x1c\x1d\x1e\x85  ") or "password" in text:
+    special = [ch for ch in u"\r\x00\x0b\x0c\x1c\x1d\x1e\x85\u2028\u2029" if ch in text]
+    if (special and not case.get("outside_domain_ok")) or "password" in text:
+        # never generated; a pinned reproducer of a recorded finding may opt in explicitly
         raise HarnessError("content outside the explored domain (see EXCLUDED)")
     regs = [(f["p"], f["b"], f["at"]) for f in case["filters"]
             if f["p"] and "\n" not in f["p"] and f["at"] in PLACES]
     labels = set(["kind=" + kind])
     u = next(_uid)
-    root = tempfile.mkdtemp(prefix="c07-")
+    root = _new_sandbox()
     try:
         with _Isolation():
             os.mkdir(os.path.join(root, "d"))
@@ -1081,7 +1108,7 @@ def selftest():
 SUBS = [
     Sub("history", check_history, strategy=strat_history, quick=400, thorough=3000, workers_quick=3,
         workers_thorough=16, budget_quick=20, budget_thorough=400),
-    Sub("content", check_content, strategy=strat_content, quick=300, thorough=5000, workers_quick=4,
+    Sub("content", check_content, strategy=strat_content, quick=220, thorough=5000, workers_quick=4,
         workers_thorough=16, budget_quick=35, budget_thorough=500),
 ]
 
